@@ -106,7 +106,7 @@ def generate(ctx, prop):
     jobs = {}
 
     # ---- 1. the repaired design satisfies every invariant (exhaustive, bounded)
-    def mc(cfg, workers=4, timeout=1800):
+    def mc(cfg, workers=4, timeout=ctx.pick(1800, 7200)):
         def f():
             r = ctx.tlc(SPEC, "MC_Gjkr", cfg=cfg, coverage=True, label=cfg, workers=workers,
                         timeout=timeout, dump_trace=False)
@@ -115,19 +115,19 @@ def generate(ctx, prop):
         return f
     jobs["mc3"] = mc("MC_Fixed_3" if thorough else "MC_Fixed_3q")
     if thorough:
-        jobs["mc4"] = mc("MC_Fixed_4", workers=4, timeout=3000)
-        jobs["mc5"] = mc("MC_Fixed_5", workers=6, timeout=3600)
+        jobs["mc4"] = mc("MC_Fixed_4", workers=4, timeout=9000)
+        jobs["mc5"] = mc("MC_Fixed_5", workers=6, timeout=9000)
 
     # ---- 2. the pinned design (no repairs) violates them: hazard model
     hz_cfg = "MC_AsIs_3" if prop == "C01" else "MC_AsIs_5_C02"
     jobs["hazard"] = lambda: ctx.tlc(SPEC, "MC_Gjkr", cfg=hz_cfg, label=hz_cfg, workers=2,
-                                     expect=("violation",), dump_trace=False, timeout=1200)
+                                     expect=("violation",), dump_trace=False, timeout=ctx.pick(1500, 5400))
 
     # ---- 3. directed behaviour classes, with and without the repairs
     def gen(label, cfg_text, **kw):
         def f():
             r = ctx.tlc(SPEC, "Gen_Gjkr", cfg_text=cfg_text, workers=1, label=label, dump_trace=False,
-                        timeout=kw.pop("timeout", 1500), **kw)
+                        timeout=kw.pop("timeout", ctx.pick(1500, 5400)), **kw)
             return ctx.read_emitted(r, "behaviours.ndjson")
         return f
     # scripted counterexamples (the adversaries TLC found against the pinned design)
@@ -139,8 +139,8 @@ def generate(ctx, prop):
     jobs["br5"] = gen("Gen_Branch5", gen_cfg(5, 2, "Corrupt5", "B5", "OnlyFixed"))
     if thorough:
         # every behaviour of the deviation classes the defects of the pinned code belong to
-        jobs["dir3"] = gen("Gen_Directed3", gen_cfg(3, 1, "Corrupt3", "Directed3", "Both"), timeout=3000)
-        jobs["dir5"] = gen("Gen_Directed5", gen_cfg(5, 2, "Corrupt5", "Directed5", "Both"), timeout=5400)
+        jobs["dir3"] = gen("Gen_Directed3", gen_cfg(3, 1, "Corrupt3", "Directed3", "Both"), timeout=7200)
+        jobs["dir5"] = gen("Gen_Directed5", gen_cfg(5, 2, "Corrupt5", "Directed5", "Both"), timeout=9000)
 
     # ---- 4. random composite adversaries (simulation), all corrupt sets, all orders
     nsim = ctx.pick({3: 60, 4: 60, 5: 150}, {3: 800, 4: 800, 5: 2400})
@@ -151,7 +151,7 @@ def generate(ctx, prop):
                                             gen_cfg(n, t, "UpToT", "All4full", "OnlyFixed", "AllPlans"),
                                             mode="simulate", num=nsim[n] // parts, depth=130,
                                             simulate_seed=ctx.seed * 31 + n + 1000 * i,
-                                            timeout=ctx.pick(1500, 7200))
+                                            timeout=ctx.pick(1500, 9000))
     res = run_parallel(ctx, jobs)
 
     rnd = random.Random(ctx.seed)
@@ -214,7 +214,7 @@ PROPERTY_LEVEL = ("agreement", "punished", "abort", "shares", "crash", "panic")
 def replay(ctx, prop, sel, traces=True):
     tests = "Replay|Trace" if traces else "Replay"
     go = ctx.gotest(PKG, "^TestVerif_%s_(%s)$" % (prop, tests), HARNESS, inputs={"behaviours.ndjson": sel},
-                    label="replay", timeout=ctx.pick(1500, 7200),
+                    label="replay", timeout=ctx.pick(1500, 9000),
                     env={"VERIF_RUNS": ctx.pick(10, 120)})
     for rep in go.reports.values():
         # violations of the property itself first, conformance differences after them
@@ -236,7 +236,7 @@ def validate_traces(ctx, prop, go):
         def f():
             tp = ctx.trace_path(go, "trace_n%d" % n)
             ok, tr = ctx.validate_trace(SPEC, "Trace_Gjkr", tp, cfg="Trace_Gjkr_%d" % n, label="Trace_Gjkr_%d" % n,
-                                        timeout=ctx.pick(1500, 5400))
+                                        timeout=ctx.pick(1500, 7200))
             return tp, ok, tr
         return f
     res = run_parallel(ctx, {n: one(n) for n in (3, 4, 5)})
